@@ -1,7 +1,10 @@
 package props
 
 import (
+	"strings"
+
 	"fmt"
+	"github.com/hattya/go.sh/ast"
 
 	"verif/core"
 	"verif/gen"
@@ -15,9 +18,41 @@ type c02Case struct {
 	Layouts int          `json:"layouts"`
 	Seed    uint64       `json:"seed"`
 	Kind    string       `json:"kind"`
+	// hand-written sentence: must be accepted and, when Equiv is given, parse to
+	// the same tree as that other spelling of the same derivation
+	Src   string `json:"src,omitempty"`
+	Equiv string `json:"equiv,omitempty"`
+}
+
+func c02Literal(c *core.Ctx, cs c02Case) {
+	key := q(cs.Src)
+	cmds, _, err := parseAll("c02", cs.Src)
+	c.Eval(1)
+	if err != nil {
+		c.Violation("rejected", key, "accepted (a sentence of the grammar)", err.Error(), "")
+		return
+	}
+	if cs.Equiv == "" {
+		return
+	}
+	ref, _, rerr := parseAll("c02", cs.Equiv)
+	if rerr != nil {
+		c.Inconclusive("reference spelling rejected: " + rerr.Error())
+		return
+	}
+	norm := func(cm []ast.Command) string {
+		return strings.ReplaceAll(skel.Cmds(cm, skel.Normalised), "(cmdsubst `", "(cmdsubst $")
+	}
+	if got, want := norm(cmds), norm(ref); got != want {
+		c.Violation("tree", key, want+"  (as "+q(cs.Equiv)+")", got, "")
+	}
 }
 
 func c02Exec(c *core.Ctx, cs c02Case) {
+	if cs.Src != "" {
+		c02Literal(c, cs)
+		return
+	}
 	want := gen.Expect(cs.Prog)
 	toks := gen.Tokens(cs.Prog, true)
 	for l := 0; l < cs.Layouts; l++ {
@@ -78,9 +113,31 @@ func c02Witnesses() []*gen.Program {
 	}
 }
 
+// hand-written sentences: regression inputs of repaired defects and the
+// witnesses of the open known findings
+var c02Sentences = [][2]string{
+	{"echo ${x:-`echo hi`}\n", "echo ${x:-$(echo hi)}\n"},
+	{"cat <<\"A\\\"B\"\nx\nA\"B\n", ""},
+	{"cat <<E\nfoo\\\nE\nE\n", ""},
+	{"case x in (esac) a;; esac\n", ""},
+	{"cat << -E\nx\n-E\n", ""},
+	{">f if\n", ""},
+	// open known findings
+	{"cat <<''\nx\n\n", ""},
+	{"echo `echo \\`echo a\\``\n", "echo $(echo $(echo a))\n"},
+	{"echo `echo \\$a`\n", "echo $(echo $a)\n"},
+	{"i\\\nf a; then b; fi\n", "if a; then b; fi\n"},
+	{"echo a &\\\n& echo b\n", "echo a && echo b\n"},
+	{"echo $a\\\nb\n", "echo $ab\n"},
+	{"echo ${01}\n", ""},
+}
+
 func c02Gen(c *core.Ctx) {
 	for _, p := range c02Witnesses() {
 		core.Do(c, c02Case{Prog: p, Layouts: 1, Kind: "known-finding-witness"}, c02Exec)
+	}
+	for _, s := range c02Sentences {
+		core.Do(c, c02Case{Src: s[0], Equiv: s[1], Kind: "hand-written"}, c02Exec)
 	}
 	n := c.Pick(8000, 600000)
 	layouts := c.Pick(4, 12)
